@@ -82,7 +82,7 @@ fn decode(data: &[u8]) -> Option<(usize, Raw, Vec<u8>)> {
         threads.push(ops);
     }
     let rest = u.take_rest().to_vec();
-    Some((pi, Raw { knobs, threads }, rest))
+    Some((pi, Raw { knobs, threads, alt: 1 }, rest))
 }
 
 fuzz_target!(|data: &[u8]| {
